@@ -320,9 +320,43 @@ def run_fault(rng):
     args = gen.to_args(o) + ['--paging', 'always' if pager_mode else 'never']
     env = {'WRITEFAULT_N': '0'}
     # input mode: stdin, or a wrapped command / two-file comparison (stub git prints the diff)
-    inmode = rng.choice(['stdin', 'stdin', 'delta-git', 'delta-files'])
+    inmode = rng.choice(['stdin', 'stdin', 'delta-git', 'delta-files', 'misc', 'other-input', 'other-input'])
     stdin_none = False
-    if inmode != 'stdin':
+    kw = {}
+    if inmode == 'misc':
+        # output paths that do not render a diff: each has its own write sites
+        sub = rng.choice(['--show-config', '--version', '--help', '--show-colors', '--list-languages', '--list-syntax-themes',
+                          '--show-syntax-themes', '--parse-ansi', '--generate-completion'])
+        args = ['--paging', 'always' if pager_mode else 'never'] + ([sub, 'bash'] if sub == '--generate-completion' else [sub])
+        data = b'\x1b[31mred\x1b[m plain \x1b[1;32mbold green\x1b[m\n' * 3 if sub == '--parse-ansi' else b''
+        stdin_none = sub != '--parse-ansi'
+        inmode = 'misc:' + sub
+    elif inmode == 'other-input':
+        # the other handlers (blame, grep, rg --json, git show REV:file, merge conflict, submodule, color-only)
+        which = rng.choice(['blame', 'git-grep', 'rg-json', 'show-file', 'conflict', 'color-only', 'raw', 'log'])
+        if which == 'blame':
+            data = corpus.blame_text(corpus.gen_blame_model(rng)).encode() if hasattr(corpus, 'gen_blame_model') else \
+                b'abcd1234 (Ann 2020-01-01 00:00:00 +0000 1) fn a() {}\nabcd1235 (Bob 2020-01-02 00:00:00 +0100 2) let x = 1;\n'
+            kw['parent_argv'] = ['git', 'blame', 'f.rs']
+        elif which == 'git-grep':
+            data = b'src/main.rs:10:fn main() {\nsrc/main.rs-11-    let x = 1;\nsrc/lib.rs:3:pub fn f() {}\n'
+            kw['parent_argv'] = ['git', 'grep', '-n', '-C1', 'fn']
+        elif which == 'rg-json':
+            data = corpus.rg_json_text([('src/main.rs', [(10, 'match', 'fn main() {', [(0, 2)]), (12, 'context', '    let x = 1;', [])])]).encode()
+        elif which == 'show-file':
+            data = b'fn main() {\n    println!("hi");\n}\n'
+            kw['parent_argv'] = ['git', 'show', 'HEAD:src/main.rs']
+        elif which == 'conflict':
+            lines, _m, _p = corpus.gen_combined(rng, conflict=True, nparents=2)
+            data = ('\n'.join(lines) + '\n').encode()
+        elif which == 'color-only':
+            args = args + ['--color-only']
+        elif which == 'raw':
+            args = args + ['--raw']
+        elif which == 'log':
+            data = ('commit ' + 'ab12' * 10 + '\nAuthor: A <a@b>\nDate:   Mon Jan 1 00:00:00 2024 +0000\n\n    message\n\n a.rs | 2 +-\n 1 file changed\n\n').encode() + data
+        inmode = 'other-input:' + which
+    elif inmode != 'stdin':
         env['VERIF_STUB_OUT'] = runner.write_file('c18_fault_stub', data)
         if inmode == 'delta-git':
             args = args + ['git', 'show']
@@ -336,7 +370,7 @@ def run_fault(rng):
     env['WRITEFAULT_LOG'] = wlog
     if pager_mode:
         env['DELTA_PAGER'] = 'mypager'
-    ref = run_plain(args, data, env=env, preload=SHIM, stdin_is_none=stdin_none)
+    ref = run_plain(args, data, env=env, preload=SHIM, stdin_is_none=stdin_none, **kw)
     outs = []
     try:
         nwrites = int(open(wlog).read().strip())
@@ -347,9 +381,14 @@ def run_fault(rng):
     sets = {'sub': ['fault:' + ('pager' if pager_mode else 'stdout') + ':' + inmode]}
     if nwrites < 1:
         return [inconclusive('no write call seen')]
-    for n in range(1, nwrites + 1):
+    points = list(range(1, nwrites + 1))
+    if nwrites > 80:
+        # outputs written with very many small writes (theme / language listings): first, last and a sample in between
+        points = sorted(set(points[:30] + points[-10:] + rng.sample(points, 40)))
+        sets['sub'].append('fault-points-sampled')
+    for n in points:
         env['WRITEFAULT_N'] = str(n)
-        r = run_plain(args, data, env=env, preload=SHIM, stdin_is_none=stdin_none)
+        r = run_plain(args, data, env=env, preload=SHIM, stdin_is_none=stdin_none, **kw)
         c = crashmod.classify(r)
         key = None
         if c is not None:
